@@ -85,6 +85,12 @@ def _build(d):
         if d.chance(1, 12):
             # big magnitudes (beyond a 28-digit decimal context)
             x = x.replace('.', '') + 'e' + str(d.int(13, 40))
+        elif d.chance(1, 8):
+            # tiny magnitudes: their shortest representation is written in
+            # exponent notation (1.5e-07)
+            m = x.replace('.', '').replace('-', '').lstrip('0') or '1'
+            x = ('-' if x.startswith('-') else '') + m[0] + (
+                '.' + m[1:6] if len(m) > 1 else '') + 'e-' + str(d.int(4, 12))
         if fn in ('ROUND', 'ROUNDUP', 'ROUNDDOWN', 'TRUNC'):
             if d.chance(1, 8):
                 args = [x]
@@ -152,7 +158,8 @@ def budget(tier):
 
 
 def enumerate_cases(tier, shard=0, nshards=1):
-    ties = ['2.675', '1.005', '0.285', '2.5', '-2.5', '0.5', '1.5', '-0.5',
+    ties = ['1.5e-7', '2.5e-6', '-4.5e-9', '1e-7', '1.25e-5', '9.99e-5',
+            '2.675', '1.005', '0.285', '2.5', '-2.5', '0.5', '1.5', '-0.5',
             '1234.5678', '-1234.5678', '0.125', '1.45', '8.325', '1e15',
             '5e-7', '0.29', '0.7', '4.42', '0.06', '7e19', '1e30', '2.5e28',
             '12345678901234.5', '0', '-0.0004', '99.995', '999999.5']
